@@ -1,12 +1,16 @@
-(* Model of the core of export.ToHtml (value/export/html.go): the calls it issues on the XMLWriter
+(* Model of export.ToHtml (value/export/html.go): the calls it issues on the XMLWriter
    (AvoidShort, PrettyPrint) for scalars, floats (their text is taken as given), lists as numbered
-   tables and lists of lists as tables with the maxListSize cut-off, the "plainList" style, maps,
+   tables and lists of lists as tables with the maxListSize cut-off, the plainList style, maps,
    Format wrappers with string / css-map styles in both style modes (inline style attribute, or
-   class names c0, c1, ... with the class list), Cell and ColSpan in table cells, Link wrappers and
-   the http:// https:// host: link forms of strings.
-   A closure style whose evaluation fails (SCloErr) is the modelled source of errors.
-   Not modelled (covered by the correspondence run only): custom renderers, closure styles that succeed, table
-   formats (style key table), File values, nil, ToHtmlInterface values, errors of lazy list elements. *)
+   class names c0, c1, ... with the class list), Cell and ColSpan in table cells, Link wrappers, the
+   http:// https:// host: link forms of strings, File values (data: link with download name; base64 and
+   the size text are taken as given), table formats (style key table: rNcM, rN, cN, all with constant
+   styles, identity closures and failing closures, which tableExporter.format swallows), and closure styles
+   of Format: failing (SCloErr, also a panicking closure: ToHtml recovers it into an error) and
+   succeeding (HFmtClo: the value the closure returns for the wrapped value is part of the case).
+   Not modelled (covered by the correspondence run only): custom renderers (raw HTML: by definition they
+   can inject), table-format closures other than the identity that succeed (their result is rendered
+   instead of the item), nil, ToHtmlInterface values, errors of lazy list elements. *)
 From P2 Require Import Base.Prelude Exp.Json Exp.Xml.
 Local Open Scope N_scope.
 
